@@ -34,9 +34,9 @@ type c20Case struct {
 
 func genC20(t *tape.Tape, tier string) any {
 	c := &c20Case{}
-	rates := []int{0, 64 << 10, 256 << 10, 1 << 20, 4 << 20, 16 << 20}
-	c.ReadLimit = rates[t.Pick(2, 1, 2, 3, 2, 1)]
-	c.WriteLimit = rates[t.Pick(2, 1, 2, 3, 2, 1)]
+	rates := []int{0, 64 << 10, 256 << 10, 1 << 20, 4 << 20, 16 << 20, 16 << 10, 31 << 10}
+	c.ReadLimit = rates[t.Pick(2, 1, 2, 3, 2, 1, 1, 1)]
+	c.WriteLimit = rates[t.Pick(2, 1, 2, 3, 2, 1, 1, 1)]
 	total := 16 << 20
 	if tier == "thorough" && t.Chance(1, 3) {
 		total = 48 << 20
@@ -513,7 +513,7 @@ func init() {
 		},
 		Real:        append([]string{"ratelimit.Listener / ratelimit.Conn (x/time/rate limiter shared by the listener's connections), connfu wrapper configuration, SizeSuffix"}, realForwarder...),
 		Stub:        stubCommon,
-		Rule:        "read and write limits drawn independently from {none, 64 KiB/s .. 16 MiB/s}; 1-7 (sometimes 12-27) connections sharing the listener, each a download (Content-Length or chunked), upload or tunnel in one direction, 16 MiB (thorough: sometimes 48 MiB) per limited direction; ample link capacity and no injected delay, so only the limiter moves the fake clock. Oracle: burst := bytes that crossed before the clock first moved; throttling must happen at all; every window after that carries at most rate x time + 64 KiB per connection (summed over all connections: a shared bucket); an unlimited direction takes zero simulated time; payload byte-exact.",
+		Rule:        "read and write limits drawn independently from {none, 16 KiB/s .. 16 MiB/s} (also rates below the size of one copy chunk); 1-7 (sometimes 12-27) connections sharing the listener, each a download (Content-Length or chunked), upload or tunnel in one direction, 16 MiB (thorough: sometimes 48 MiB) per limited direction; ample link capacity and no injected delay, so only the limiter moves the fake clock. Oracle: burst := bytes that crossed before the clock first moved; throttling must happen at all; every window after that carries at most rate x time + 64 KiB per connection (summed over all connections: a shared bucket); an unlimited direction takes zero simulated time; payload byte-exact.",
 		Assumptions: []string{"the burst allowance is not documented; it is learnt per run as the bytes that crossed before the clock first moved and must be smaller than the transfer", "one write per connection may be sent on credit before the limiter waits (64 KiB slack per connection)"},
 	})
 }
